@@ -1367,6 +1367,10 @@ class WCSGroupCatalog(object):
         if minobj is None:
             minobj = SUPPORTED_FITGEOM_MODES[fitgeom]
             log.debug(f"Setting 'minobj' to {minobj} for fitgeom='{fitgeom}'")
+        else:
+            # a fit cannot be performed with fewer sources than the minimum
+            # required by the fit geometry:
+            minobj = max(minobj, SUPPORTED_FITGEOM_MODES[fitgeom])
 
         if ref_tpwcs is None:
             ref_tpwcs = deepcopy(self._images[0].corrector)
